@@ -55,6 +55,46 @@ def _ctx_block(msg, blockname, **vals):
     return b
 
 
+def _edit_in_place(v, depth=0):
+    """change one numeric leaf of a mutable structure in place; True if something was changed"""
+    import dataclasses as _dc
+    if depth > 4:
+        return False
+    if isinstance(v, dict):
+        for k in list(v):
+            x = v[k]
+            if isinstance(x, bool):
+                continue
+            if isinstance(x, float):
+                v[k] = 0.5 if x != 0.5 else 0.25
+                return True
+            if isinstance(x, int) and type(x) is int:
+                v[k] = 1 if x != 1 else 2
+                return True
+            if _edit_in_place(x, depth + 1):
+                return True
+        return False
+    if isinstance(v, list):
+        return any(_edit_in_place(x, depth + 1) for x in v if not isinstance(x, (int, float, str, bytes)))
+    if _dc.is_dataclass(v) and not isinstance(v, type):
+        for f in _dc.fields(v):
+            x = getattr(v, f.name)
+            if isinstance(x, bool):
+                continue
+            try:
+                if isinstance(x, float):
+                    setattr(v, f.name, 0.5 if x != 0.5 else 0.25)
+                    return True
+                if type(x) is int:
+                    setattr(v, f.name, 1 if x != 1 else 2)
+                    return True
+            except Exception:  # noqa
+                continue
+            if _edit_in_place(x, depth + 1):
+                return True
+    return False
+
+
 def bounded_subfields(reg, tier, seed):
     import hippolyzer.lib.base.templates  # noqa
     import hippolyzer.lib.base.serialization as se
@@ -226,6 +266,22 @@ def bounded_subfields(reg, tier, seed):
                                             fail(f"subfield/forms/{name}", f"{name}: serialize_var on a block whose cache was filled by deserialize_var left "
                                                  f"{_h(b3.vars[var])[:60]} in the field; the value handed in encodes to {_h(want_alt)[:60]}",
                                                  {"field": name, "payload": _h(p), "value_from": _h(alt)})
+                                if order == "object-first":
+                                    # the object handed out with make_copy=False, edited in place and written back, is re-encoded
+                                    b4 = _ctx_block(msg, block, **cv)
+                                    b4.vars[var] = p
+                                    _SM(msg, b4)
+                                    live = b4.deserialize_var(var, make_copy=False)
+                                    if _edit_in_place(getattr(live, "__wrapped__", live)):
+                                        try:
+                                            want_edit = ser.serialize(bb, live)
+                                        except Exception:  # noqa
+                                            want_edit = None
+                                        if want_edit is not None and bytes(want_edit) != bytes(p):
+                                            b4.serialize_var(var, live)
+                                            if bytes(b4.vars[var]) != bytes(want_edit):
+                                                fail(f"subfield/forms/{name}", f"{name}: a value obtained with make_copy=False, edited in place and written back with "
+                                                     f"serialize_var left the old bytes in the field", {"field": name, "payload": _h(p)})
                                 back = _HS.from_human_string(text)
                                 got = back[block][0].vars[var] if block in back.blocks else None
                                 if isinstance(want_pod, (bytes, bytearray)) and bytes(got) != bytes(want_pod):
